@@ -4,8 +4,17 @@ def register(reg):
   reg("C36", "proof",
       "fix_indents is modelled exactly (a 6-line fold); fix_valid/fix_never_deeper/fix_step/fix_greatest/fix_noop_of_valid "
       "are proved for all page lists and removal sets; the model is diffed with treeview.fix_indents on an exhaustive "
-      "small scope plus random lists, and the property clauses are evaluated on the real outputs.",
-      "page ids distinct; indentations non-negative ints; engine-level path (_removePageRecords) exercised by histories.",
+      "small scope plus random lists, and the property clauses are evaluated on the real outputs. The caller "
+      "(useractions._removePageRecords: which page records it hands to fix_indents and in which order) is NOT modelled "
+      "in Lean: it is judged by the direct oracle only, on live engines whose pages were moved / re-indented / "
+      "re-parented / added out of order (pagePos order != row-id order) and then removed through RemoveRecord, "
+      "BulkRemoveRecord, RemoveView, Remove/BulkRemoveRecord on _grist_Views and RemoveTable (fixed witnesses with "
+      "literal outcomes, every permutation of <=3 pages and sampled 4-5, random documents; counters eng2_*); the "
+      "engine's outcome is additionally compared with Grist.Treeview.applyFixes run on the pagePos-ordered list that "
+      "the harness extracts.",
+      "page ids distinct; indentations non-negative ints; engine level: list of pages = _grist_Pages records in "
+      "pagePos order (distinct positions), removed set = records that disappeared, clauses demanded only of bundles "
+      "that remove at least one page; pagePos sorting / filter_records / docmodel.remove cascades not modelled.",
       "Lean 4 theorem by induction over the page list + differential correspondence")
 
   reg("C21", "proof",
@@ -638,9 +647,20 @@ def register(reg):
       "lookupColId_renamed. Differentially validated only: the parser/asttokens parameters (Python ast and asttokens "
       "positions on the old and the renamed text) and model = code on generated formulas (function level) and through a "
       "live engine (RenameColumn / RenameTable / label / bulk colId updates on documents with ACL rules, user attributes, "
-      "dropdown conditions, trigger conditions), with an independent oracle based on CPython's own ast positions.",
+      "dropdown conditions, trigger conditions), with an independent oracle based on CPython's own ast positions. "
+      "Summary tables: most generated documents and one fixed history per run carry ACL resources/rules, a user "
+      "attribute, dropdown conditions (choice.X of Ref/RefList columns pointing to a summary table; rec.X/$X of a Ref "
+      "column of a summary table) and trigger conditions on SUMMARY tables, and rename the source column of a group-by "
+      "column (which renames the group-by column and the summary table, T_summary_a -> T_summary_b, in one user action) "
+      "or a summary table's formula column. These situations are judged by the direct oracle (renames read off the "
+      "metadata before/after, keyed by the table id before the bundle; every formula / colIds / lookupColId must be the "
+      "old text with exactly those references renamed, tableId must follow the table rename) plus the same per-formula "
+      "model tie as for ordinary tables; the ordering inside useractions._updateColumnRecords (rules rewritten while the "
+      "old summary table id is still current) is NOT modelled or proved in Lean (counters eng_summary_*).",
       "parameters: Python tokenizer/parser, asttokens token positions, get_dollar_replacer's `$` detection; ASCII column "
-      "ids; colIds lists without blanks; one rename action per bundle at engine level; summary-table renames not exercised.",
+      "ids; colIds lists without blanks; one rename action per bundle at engine level; summary-table situations "
+      "(group-by rename + automatic summary-table rename) are differential/direct-oracle only; columns added to summary "
+      "tables get names unique per summary table (sister-column synchronisation is outside C17).",
       "Lean 4 theorems over lexeme lists + Textbuilder model (C37) + TreeConverter model (C40); differential correspondence")
 
   reg("C23", "proof",
